@@ -19,6 +19,7 @@ func smallCheap(mode string) Variant {
 	v.Name = "small-reserves-cheap-token"
 	v.Std3, v.Tok3 = i(1009), i(100003)
 	v.Amts = []sdkmath.Int{i(1), i(7), i(64)}
+	v.CreationFee = 5001
 	return v
 }
 
